@@ -33,14 +33,13 @@ class C17(PropertyCheck):
     rule = ("values built through the public fields of ASetFile: every presence pattern of one group over a 7-slot window (first six "
             "slots and the last slot of the group; thorough: 2^16 patterns over 16 slots) for groups 0, 3 and 7, cross patterns over two "
             "groups, dense / sparse / entirely empty sets, labelled and unlabelled sets, the last slot of every group, empty-string "
-            "names, meta absent / empty / present, tables empty / full / random, 0-5 sets per file, values outside the quantifier "
+            "names, meta absent / empty / present, tables empty / full / random / first or last entry alone, 0-5 (once 12) sets per file, values outside the quantifier "
             "(short, long and empty sets, tables of other lengths) for the correspondence only, the game file FE14Aset_Test.bin.  "
             "Non-trivial = at least one present slot; distinct = distinct case line.")
     assumptions = ["A-codec: strings are given in Shift-JIS encoded form; encoding_rs decodes/encodes the generated alphabet losslessly",
                    "the label AnimClipNameTable is reserved by the format: a set carrying it makes the table lookup depend on the hash "
                    "state and is outside wf_aset",
-                   "bytes level: BinArchive serialize -> from_bytes preserves what the reader observes (premise bytes_round_trip of "
-                   "C17_round_trip_bytes; to be discharged by C01)"]
+                   "image (data + strings + labels + 35) below 2^32 (aset_fits)"]
 
     def generate(self, rng, tier):
         cases = []
@@ -79,7 +78,15 @@ class C17(PropertyCheck):
         add(None, none_table, [blank_set(), blank_set(b""), blank_set(b"x"), blank_set()], "empty-sets")
         add(b"meta", full, [set_with(rng, range(1, 257), b"dense")], "dense")
         add(b"meta", full, [set_with(rng, range(1, 257), None, names=lambda _: b""), set_with(rng, range(1, 257), b"d2")], "dense")
-        n_rand = 150 if tier == "quick" else 4000
+        # table: first / last entry alone; many sets in one file (labels repeated, interleaved empty sets)
+        add(None, [b"first"] + [None] * 256, [], "table-edges")
+        add(None, [None] * 256 + [b"last"], [set_with(rng, [256])], "table-edges")
+        add(b"", [None] * 255 + [b"", b""], [], "table-edges")
+        many = []
+        for k in range(12):
+            many.append(blank_set(b"s%d" % (k % 3)) if k % 4 == 3 else set_with(rng, [1 + (37 * k) % 256, 256 - k], b"s%d" % (k % 3) if k % 2 else None))
+        add(b"meta", none_table, many, "many-sets")
+        n_rand = 150 if tier == "quick" else 2500
         for _ in range(n_rand):
             meta = rng.choice([None, b"", R.rand_string(rng)])
             table = rand_table(rng, rng.choice([0.0, 0.1, 0.9, 1.0]))
@@ -111,6 +118,8 @@ class C17(PropertyCheck):
             sets = [set_with(rng, [i for i in range(1, 257) if rng.random() < 0.05], rng.choice([None, b"lab"])) for _ in range(rng.randint(0, 3))]
             img = R.encode_aset_image(rng.choice([None, b"meta"]), rand_table(rng, 0.5), sets)
             cases.append(Case("aset p " + R.B(img), "foreign-image"))
+        # the runner splits the list into contiguous shards: mix cheap (sparse) and expensive (dense, game file) cases
+        rng.shuffle(cases)
         return cases
 
     def nontrivial(self, case, impl_out):
@@ -211,7 +220,25 @@ TB = ("Trusted: Coq 8.16.1 kernel (vm_compute, no native_compute), no axioms (Pr
       "ExtrOcamlBasic extraction + hand-written OCaml driver, the Rust harness and Python generators/oracles. ")
 
 MANIFEST = dict(
-    text="(filled in below)",
-    note=TB,
-    technique="Coq proof + extracted-model differential check",
+    text="Theorems about an executable Gallina model of ASetFile::from_archive / ASetFile::serialize (transcribed call by call over the "
+         "bin-archive stream model). For every value with 257 table entries and 257 entries per set (label + 256 slots), any meta, any "
+         "present/absent pattern: the writer builds exactly the archive of the cell list header ++ 257 string cells ++ per set [main flags "
+         "word, per non-empty group its flags word and one string cell per present slot] with AnimClipNameTable at 12 and each set label "
+         "on the first byte of its record (C17_writer_builds_cells, C17_write_set); the reader returns the value on every archive showing "
+         "that layout and those labels (C17_reader_inverts_layout, C17_round_trip_archive) - bit lemmas testbit(compile_flags bs) j = "
+         "nth j bs for the 32-bit group words and the 8-bit main mask. Space: a set record is 4*(1 + #non-empty groups + #present slots) "
+         "bytes = what the writer allocates, the data region is 12 + 4*257 + the sum over sets, an all-absent group contributes no cell, an "
+         "all-absent set costs 4 bytes, and that size is the data-size field of the file image (C17_space_set, C17_space_file, "
+         "C17_space_file_bytes, C17_absent_group_omitted, C17_space_empty_set). Byte level "
+         "(C17_round_trip_final, no premise): for NUL-free strings (empty allowed), no set labelled AnimClipNameTable, image < 2^32, in "
+         "both arithmetic modes serialize succeeds, parse(bytes) returns the same value and re-serializing whatever is re-read gives the "
+         "same bytes; proved from the bin-archive round trip C01 via Proofs/RecsBinBridge.v (C17_round_trip states the same relative to "
+         "that round trip as an explicit premise). Model tied to /repo on every run: value -> serialize -> parse -> re-serialize compared "
+         "line by line with the extracted model, plus an independent Python decoder of the image and the space formula as oracle.",
+    note=TB + "Strings are Shift-JIS encoded byte lists (A-codec: encoding_rs lossless on the generated alphabet is assumed, exercised by "
+              "the harness). A set carrying the label AnimClipNameTable is outside the byte-level theorem (the table lookup then depends on "
+              "the hash order; the correspondence compares only the outcome class there). HashMap iteration order is modelled as an "
+              "arbitrary list order: the reader theorem holds for every order (obs_equal).",
+    technique="Coq proof (cell-list simulation of the writer, layout inversion by the reader, bit lemmas for the flag words; byte level from the "
+              "bin-archive round trip C01) + extracted-model differential check + independent decoder/space-formula oracle",
     ref="DESIGN.md section 6 (C17)")
